@@ -8,4 +8,11 @@ theorem tie_codec_constants :
     Tables.codec_uuidLen = Codec.uuidLen ∧ Tables.codec_timeLen = Codec.timeLen ∧
     Tables.codec_fileLenWithoutKey = Codec.fileLenWithoutKey := by decide
 
+/-- `minDirCount`: the clamp of C20_valid is to 100; the harness values 50 / 0 are below it, 200 and the
+    default are not (this is what `Config.belowMin` encodes). -/
+theorem tie_config_constants :
+    Tables.config_minDirCount = 100 ∧ Tables.config_defaultPort = 8888 ∧
+    Tables.config_defaultDirCount = 1000000 ∧ 50 < Tables.config_minDirCount ∧
+    Tables.config_minDirCount ≤ 200 ∧ Tables.config_minDirCount ≤ Tables.config_defaultDirCount := by decide
+
 end FsDb.Tie
